@@ -1107,7 +1107,9 @@ def _check_dispatch_order(ck, rule, fa, D, pairs, label):
         if own_sub == own_sup:
             continue
         # ... and what a `sub` value really gets: exactly that class (exact-class tables apply) or a subclass of it
-        ok = all(D.outcome((sub, kind, "actual")) != own_sup for kind in ("exact", "sub"))
+        # (no way out that only sup's rung offers -- also when that rung is entered under a further condition)
+        only_sup = own_sup - own_sub
+        ok = all(not (D.outcome((sub, kind, "actual")) & only_sup) for kind in ("exact", "sub"))
         verdicts.append((sub, sup, ok))
     for (sub, sup, ok) in verdicts:
         ck.ob(rule, fa.key(None, "%s:%s-before-%s" % (label, sub, sup)), ok,
